@@ -28,12 +28,15 @@ ExportSeqs ==
    "suffix"   - declaration 2 is private and its name (_tail) is a suffix of declaration 1's name (public_tail), which is re-exported.
    "samemodule" - two public modules with the SAME module name in different packages (sub/deep/m and sub/m); module 1 is re-exported as a
                   whole module ('from <root>.sub.deep import m') by one package.
-   "initdecl"  - declaration 1 is written directly into the package file sub/deep/__init__.py (no re-export): it belongs to the stub of that package. *)
-Variants == {"distinct", "samename", "suffix", "samemodule", "initdecl"}
+   "initdecl"  - declaration 1 is written directly into the package file sub/deep/__init__.py (no re-export): it belongs to the stub of that package.
+   "sharedbase" - both classes live in sub/deep/moda and derive from one private class that has a public method m_shared; class 2 overrides it,
+                  class 1 does not: each class shows m_shared exactly once. *)
+Variants == {"distinct", "samename", "suffix", "samemodule", "initdecl", "sharedbase"}
 Universe == { [kind |-> k, exports |-> e, variant |-> "distinct"] : k \in Kinds, e \in ExportSeqs }
              \cup { [kind |-> k, exports |-> << Exp(a, 1, x) >>, variant |-> v] : k \in Kinds, a \in {0, 1, 2}, x \in {"", "AliasA"}, v \in {"samename", "suffix"} }
              \cup { [kind |-> k, exports |-> << Exp(a, 1, "") >>, variant |-> "samemodule"] : k \in Kinds, a \in {0, 1, 3} }
              \cup { [kind |-> k, exports |-> << >>, variant |-> "initdecl"] : k \in Kinds }
+             \cup { [kind |-> "class", exports |-> e, variant |-> "sharedbase"] : e \in { << >>, << Exp(0, 1, "") >>, << Exp(1, 2, "") >> } }
 
 BoundName(e) == IF e.alias = "" THEN DName(e.tgt) ELSE e.alias
 (* what package `at` exposes after executing its imports in order: name -> declaration (later bindings win) *)
@@ -45,9 +48,9 @@ ExposedNames(s, at, t) ==
   { BoundName(s.exports[j]) : j \in { j \in 1..Len(s.exports) : s.exports[j].at = at /\ s.exports[j].tgt = t
                                        /\ \A m \in (j + 1)..Len(s.exports) : ~(s.exports[m].at = at /\ BoundName(s.exports[m]) = BoundName(s.exports[j])) } }
 PublicDecl(s, t) ==
-  IF s.variant \in {"distinct", "samemodule", "initdecl"} THEN TRUE
+  IF s.variant \in {"distinct", "samemodule", "initdecl", "sharedbase"} THEN TRUE
   ELSE t = 1 /\ \E a \in Ats : Exposes(s, a, 1)       \* private modules: public only through the re-export, and only the re-exported declaration
-ModHomeV(s, t) == IF s.variant = "initdecl" /\ t = 1 THEN <<"sub", "deep">> ELSE IF s.variant = "samemodule" THEN (IF t = 1 THEN <<"sub", "deep", "modsame">> ELSE <<"sub", "modsame">>) ELSE ModHome(t)
+ModHomeV(s, t) == IF s.variant = "sharedbase" THEN <<"sub", "deep", "moda">> ELSE IF s.variant = "initdecl" /\ t = 1 THEN <<"sub", "deep">> ELSE IF s.variant = "samemodule" THEN (IF t = 1 THEN <<"sub", "deep", "modsame">> ELSE <<"sub", "modsame">>) ELSE ModHome(t)
 AllowedHomes(s, t) == { ModHomeV(s, t) } \cup { PkgPath(at) : at \in { a \in Ats : Exposes(s, a, t) } }
 AllowedNames(s, t) == { DName(t) } \cup UNION { ExposedNames(s, a, t) : a \in Ats }
 Targets(s) == {1} \cup { s.exports[j].tgt : j \in 1..Len(s.exports) }
@@ -75,7 +78,19 @@ Shape(s) == (IF Len(s.exports) = 0 THEN "declared-in-package-file" ELSE IF Len(s
              IF s.exports[1].tgt = s.exports[2].tgt THEN (IF s.exports[1].at = s.exports[2].at THEN "same-package-twice" ELSE IF Len(PkgPath(s.exports[1].at)) = Len(PkgPath(s.exports[2].at)) THEN "two-packages-equal-depth" ELSE "two-depths")
              ELSE (IF BoundName(s.exports[1]) = BoundName(s.exports[2]) THEN "two-declarations-one-name" ELSE "two-declarations-one-package"))
             \o ":" \o s.kind \o (IF s.variant = "samemodule" THEN ":same-module-name" ELSE "")
+(* members a class declaration must show, each exactly once (the private helper never) *)
+OwnMember(t) == IF t = 1 THEN "m_d1" ELSE "m_d2"
+ExpectedMembers(s, t) == IF s.kind # "class" THEN {} ELSE { OwnMember(t) } \cup (IF s.variant = "sharedbase" THEN { "m_shared" } ELSE {})
+MCount(ms, m) == Cardinality({ j \in 1..Len(ms) : ms[j] = m })
+JudgeMembers(s, d) ==
+  IF s.kind # "class" \/ Len(d.occs) # 1 \/ ~PublicDecl(s, d.tgt) THEN {}
+  ELSE LET ms == d.occs[1].members IN
+       { [property |-> "C03", clause |-> "ExactlyOnce", sig |-> "u2:member-" \o (IF MCount(ms, m) = 0 THEN "dropped" ELSE "duplicated") \o ":" \o s.variant \o ":" \o m,
+          expected |-> "1", observed |-> ToString(MCount(ms, m))] : m \in { m \in ExpectedMembers(s, d.tgt) : MCount(ms, m) # 1 } }
+       \cup { [property |-> "C03", clause |-> "ExactlyOnce", sig |-> "u2:member-duplicated:" \o s.variant \o ":other", expected |-> "1", observed |-> ms[j]]
+              : j \in { j \in 1..Len(ms) : MCount(ms, ms[j]) > 1 /\ ms[j] \notin ExpectedMembers(s, d.tgt) } }
 Judge(s, obs) ==
+  UNION { JudgeMembers(s, obs.decls[j]) : j \in 1..Len(obs.decls) } \cup
   UNION { LET d == obs.decls[j]
               n == Len(d.occs)
           IN IF ~PublicDecl(s, d.tgt)
@@ -86,7 +101,7 @@ Judge(s, obs) ==
              ELSE
              (IF n = 0 THEN { [property |-> "C03", clause |-> "ExactlyOnce", sig |-> "u2:dropped:" \o Shape(s), expected |-> "1", observed |-> "0"] } ELSE {})
              \cup (IF n > 1 THEN { [property |-> "C03", clause |-> "ExactlyOnce", sig |-> "u2:duplicated:" \o Shape(s), expected |-> "1", observed |-> ToString(n)] } ELSE {})
-             \cup (IF s.variant \in {"distinct", "samemodule", "initdecl"} /\ n = 1 /\ d.occs[1].home \notin AllowedHomes(s, d.tgt) THEN { [property |-> "C03", clause |-> "Home", sig |-> "u2:" \o Shape(s), expected |-> ToString(AllowedHomes(s, d.tgt)), observed |-> ToString(d.occs[1].home)] } ELSE {})
-             \cup (IF s.variant \in {"distinct", "samemodule", "initdecl"} /\ n = 1 /\ d.occs[1].name \notin AllowedNames(s, d.tgt) THEN { [property |-> "C03", clause |-> "Name", sig |-> "u2:" \o Shape(s), expected |-> ToString(AllowedNames(s, d.tgt)), observed |-> d.occs[1].name] } ELSE {})
+             \cup (IF s.variant \in {"distinct", "samemodule", "initdecl", "sharedbase"} /\ n = 1 /\ d.occs[1].home \notin AllowedHomes(s, d.tgt) THEN { [property |-> "C03", clause |-> "Home", sig |-> "u2:" \o Shape(s), expected |-> ToString(AllowedHomes(s, d.tgt)), observed |-> ToString(d.occs[1].home)] } ELSE {})
+             \cup (IF s.variant \in {"distinct", "samemodule", "initdecl", "sharedbase"} /\ n = 1 /\ d.occs[1].name \notin AllowedNames(s, d.tgt) THEN { [property |-> "C03", clause |-> "Name", sig |-> "u2:" \o Shape(s), expected |-> ToString(AllowedNames(s, d.tgt)), observed |-> d.occs[1].name] } ELSE {})
         : j \in 1..Len(obs.decls) }
 =============================================================================
